@@ -1,5 +1,6 @@
-(* Runner of the COMPOSED server model (coq/Model/ServerW.v: handle_message_w, the object of c01_no_panic and
-   c02_wellformed): `<u|t> <edns> <catalog> <keys> <requesthex>`.  Unlike run_srv.ml nothing is composed
+(* Runner of the EXTENDED COMPOSED server model (coq/Model/ServerWT.v: handle_message_wt, the object of
+   c01_no_panic_tsig_partial / c02_wellformed_tsig_partial; = Model/ServerW.v handle_message_w - c01_no_panic, c02_wellformed -
+   on every response without TSIG; responses WITH a TSIG record are octets too now, only a verified request answered out of a zone stays abstract): `<u|t> <edns> <catalog> <keys> <requesthex>`.  Unlike run_srv.ml nothing is composed
    here: the extracted Coq function decides whether a response is produced in octets (answers out of a
    Loaded zone, and NOTIMP / REFUSED / SERVFAIL to a clean QUERY, all without TSIG) or stays abstract; octets
    are rendered through the message decoder of Spec/MsgWriterS.v in the field syntax of
